@@ -177,7 +177,13 @@ def feature_gate(syn, mir_nodefault, prop="C10"):
                     cond = c.get("cond", "")
                     if any(S.squash(p) == 'cfg!(feature="serde-compat")' for p in S.split_top(cond.replace("&&", "\x00"), "\x00")):
                         gated = True
-            if target == "using_serde_with":
+            # `let needs_type = cfg!(feature = "serde-compat") && self.using_serde_with && ..`: gated inside the initialiser
+            for c in e["ctx"]:
+                if c["k"] == "let":
+                    le = [x for x in S.events(fn, "let") if x.get("id") == c.get("id")]
+                    if le and any(S.squash(p) == 'cfg!(feature="serde-compat")' for p in S.split_top(le[0]["init"].replace("&&", "\x00"), "\x00")):
+                        gated = True
+            if target == "using_serde_with" and not gated:
                 # the read is inside the condition itself: look at the enclosing if event
                 for ev in S.events(fn, "if"):
                     if "using_serde_with" in ev["cond"]:
